@@ -293,6 +293,60 @@ func (g *gen) build() {
 			x.DelayMs = 30
 		}
 	}
+	// L. round 3: a COMPLETE HTTP/2 response followed by RST_STREAM(NO_ERROR / CANCEL), GOAWAY or the end of the
+	//    connection, while an upload is still blocked on flow control; the caller starts reading only after the
+	//    client has processed those frames (PING/ack barrier) - or immediately (auto / output modes)
+	for i, n := 0, r.Scale(64, 640); i < n; i++ {
+		a := g.muxAresp(hk.Pick(rng, []int{0, 1, 17, 600, 4096, 16000, 40000}), rng.Intn(4))
+		for !bodyAllowed(a.Code) || a.Code >= 300 && a.Code < 400 {
+			a = g.muxAresp(hk.Pick(rng, []int{0, 1, 17, 600, 4096, 16000, 40000}), rng.Intn(4))
+		}
+		a.Interim = nil
+		x := g.h2(a, "POST", hk.Pick(rng, modes), hk.Pick(rng, []string{"one", "batch", "random"}), rng.Bool())
+		x.H2.After = []string{"rst-no-error", "rst-no-error", "rst-cancel", "goaway-close", "close", ""}[i%6]
+		x.H2.Upload = hk.Pick(rng, []int{0, 300 << 10, 300 << 10, 70000})
+		x.Upload = x.H2.Upload
+		if x.H2.After == "goaway-close" || x.H2.After == "close" {
+			x.DelayMs = 30
+		}
+	}
+	// M. round 3: HTTP/1.1 responses CUT at a particular point (the peer closes after k bytes): in the last-chunk
+	//    line, between it and the trailer section, inside the trailer section, inside the final CRLF, inside the
+	//    body.  A cut response must never be delivered as a complete one.
+	for i, n := 0, r.Scale(14, 140); i < n; i++ {
+		a := genAresp(rng, hk.Pick(rng, []int{0, 1, 17, 100}), rng.Intn(3), false)
+		for !bodyAllowed(a.Code) || a.Code >= 300 && a.Code < 400 {
+			a = genAresp(rng, hk.Pick(rng, []int{0, 1, 17, 100}), rng.Intn(3), false)
+		}
+		a.Interim = nil
+		o := &h1opts{Framing: wire.FrChunked, Declare: i%3 != 2}
+		a.Trailers = genTrailers(rng, true)
+		if i%4 != 3 && len(a.Trailers) == 0 {
+			a.Trailers = []field{{"X-Checksum", "sum"}}
+		}
+		if i%5 == 4 {
+			o.Framing, a.Trailers = wire.FrCL, nil
+		}
+		mode := hk.Pick(rng, modes)
+		full := g.h1(a, o, "GET", mode, "one", false)
+		// every cut offset in the tail (from 12 bytes before the end of the body framing to the end), a few earlier
+		start := len(full.wire) - 12 - len(trailerBytes(full)) - 5
+		if start < full.hdrLen {
+			start = full.hdrLen
+		}
+		var cuts []int
+		for k := start; k < len(full.wire); k++ {
+			cuts = append(cuts, k)
+		}
+		for j := 0; j < 4; j++ {
+			cuts = append(cuts, rng.Range(1, len(full.wire)-1))
+		}
+		for _, k := range cuts {
+			x := &exch{Proto: "h1", A: a, H1: o, Method: "GET", Mode: mode, Pat: full.Pat, SegK: "one",
+				wire: full.wire, pieces: full.pieces, hdrLen: full.hdrLen, CutAt: k, Cut: true}
+			g.xs = append(g.xs, x)
+		}
+	}
 	// K. output files as state across exchanges
 	for i, n := 0, r.Scale(24, 300); i < n; i++ {
 		g.files = append(g.files, genFileScenario(rng, i, filepath.Join(r.OutDir, "dl")))
@@ -428,6 +482,12 @@ func runC02(r *hk.Run) {
 		}
 		r.Count("segmentation:" + seg)
 		r.Count(fmt.Sprintf("interim-1xx:%d", len(x.A.Interim)))
+		if x.Cut {
+			r.Count("h1-cut")
+		}
+		if x.H2 != nil && (x.H2.After != "" || x.H2.Upload > 0) {
+			r.Count("h2-after-end:" + x.H2.After + fmt.Sprintf("/upload=%v", x.H2.Upload > 0))
+		}
 		r.Count("body-len:" + lenClass(len(x.A.Body)))
 		nontrivial := len(x.expectedBody()) > 0 || len(x.A.Fields) >= 3 || len(x.A.Trailers) > 0 || len(x.A.Interim) > 0
 		c := hk.Case{Desc: x.desc()}
@@ -456,6 +516,14 @@ func runC02(r *hk.Run) {
 		}
 		r.Add(c, x.key(), nontrivial)
 	}
+}
+
+func trailerBytes(x *exch) []byte {
+	var b []byte
+	for _, t := range x.A.Trailers {
+		b = append(b, []byte(t.Name+": "+t.Value+"  \r\n")...)
+	}
+	return b
 }
 
 func lenClass(n int) string {
